@@ -316,7 +316,7 @@ AnyErr == \E i \in DOMAIN results : results[i].err
 NoFailCalls(cl) == \A i \in DOMAIN cl : cl[i][Len(cl[i])] # "fail"
 
 \* observation-only facts (all good in the model's own outcome)
-GoodExtra == [lookup_bad |-> <<>>, early_open |-> 0, tmp_left |-> 0, manifest_same |-> TRUE, canon_same |-> TRUE,
+GoodExtra == [conc_same |-> TRUE, conc_why |-> "", lookup_bad |-> <<>>, early_open |-> 0, tmp_left |-> 0, manifest_same |-> TRUE, canon_same |-> TRUE,
               dirs_ok |-> TRUE, unscripted |-> <<>>, diags_ok |-> TRUE, reopen_diff |-> <<>>, archive_diff |-> <<>>]
 
 \* verdict on an outcome given as (events e, calls cl, final tables, flags)
@@ -339,6 +339,7 @@ VerdictW(W, adds, e, cl, pk, res, dep, anyErr, refusedAfter, bundleOK, x) ==
              \cup { <<"analyze-twice", k>> : k \in { q \in anKeys : cnt("Analyze", q) > 1 } }
              \cup { <<"not-analyzed", a.src.pkg, a.src.sub, a.f>> : a \in { b \in remNeeded : clean /\ cnt("Analyze", <<b.src.pkg, b.src.sub, b.f>>) # 1 } }
              \cup (IF EventsOK(e) THEN {} ELSE { <<"events-not-bracketed">> })
+             \cup (IF x.conc_same THEN {} ELSE { <<"concurrent-adds-differ-from-sequential", x.conc_why>> })
       \* C08: at a clean close everything required is present and every lookup answers as expected
       w08 == IF spurious /\ regNeeded = {} THEN { <<"build-fails-without-cause">> } ELSE IF ~(clean /\ bundleOK) THEN {} ELSE
              { <<"package-missing", a.src.pkg>> : a \in { b \in remNeeded : b.src.pkg \notin DOMAIN pk } }
@@ -364,6 +365,8 @@ VerdictW(W, adds, e, cl, pk, res, dep, anyErr, refusedAfter, bundleOK, x) ==
       w13 == (IF x.manifest_same THEN {} ELSE { <<"identical-builds-differ">> })
              \cup (IF x.canon_same THEN {} ELSE { <<"order-of-adds-changes-the-bundle">> })
              \cup (IF x.dirs_ok THEN {} ELSE { <<"coalescing-wrong">> })
+             \* free-running concurrent Add calls: same bundle as the sequential build, nothing fetched twice, nothing new asked
+             \cup (IF x.conc_same THEN {} ELSE { <<"concurrent-adds-differ-from-sequential", x.conc_why>> })
              \cup { <<"environment-asked-something-new", x.unscripted[i]>> : i \in DOMAIN x.unscripted }
       w10 == IF x.tmp_left > 0 /\ bundleOK THEN { <<"temporary-directory-left">> } ELSE {}
       \* C09: re-opening and archiving give an indistinguishable bundle
